@@ -82,9 +82,9 @@ impl Terminal for RecTerm {
 
 // ------------------------------------------------------------------ alphabet
 
-pub const KIND_NAMES: [&str; 14] = [
+pub const KIND_NAMES: [&str; 17] = [
     "blank", "a", "a/red", "blank/red", "blank/underline", "wide", "wide/red", "img1x1", "img1x2", "img1x1'", "glyph1x2", "img2x1",
-    "glyph1x2/underline", "glyphB1x1",
+    "glyph1x2/underline", "glyphB1x1", "glyph1x2/framed", "U+3000", "U+1680",
 ];
 
 
@@ -129,6 +129,20 @@ impl Alphabet {
             "h".to_owned(),
             None,
         );
+        // a third glyph object equal to the first in path, size and fallback, but drawn inside a filled frame
+        let glyph_framed = Glyph::new(
+            surf_n_term::rasterize::Path::empty(),
+            Default::default(),
+            None,
+            Size::new(1, 2),
+            "g".to_owned(),
+            Some(surf_n_term::glyph::GlyphFrame { fill_color: Some(RGBA::new(0, 255, 0, 255)), ..Default::default() }),
+        );
+        {
+            let size = RecTerm::new(1, 3).size;
+            assert_ne!(img_id(&glyph.rasterize(red(), size)), img_id(&glyph_framed.rasterize(red(), size)), "framed glyph must look different");
+            assert_ne!(img_id(&glyph.rasterize(red(), size)), img_id(&glyph.rasterize(under, size)), "glyph under another face must look different");
+        }
         let ptrs = vec![
             (7, i1.data().as_ptr() as usize),
             (8, i2.data().as_ptr() as usize),
@@ -150,19 +164,23 @@ impl Alphabet {
             Cell::new_image(i3),
             Cell::new_glyph(under, glyph),
             Cell::new_glyph(red(), glyph_b),
+            Cell::new_glyph(red(), glyph_framed),
+            // white space other than U+0020: a wide one and a narrow one with a visible stroke
+            Cell::new_char(Face::default(), '\u{3000}'),
+            Cell::new_char(Face::default(), '\u{1680}'),
         ];
         Alphabet { cells, ptrs }
     }
 
     fn is_wide(kind: usize) -> bool {
-        kind == 5 || kind == 6
+        kind == 5 || kind == 6 || kind == 15
     }
 
     /// (height, width) in cells of the area an image-like kind covers
     fn area(kind: usize) -> Option<(usize, usize)> {
         match kind {
             7 | 9 | 13 => Some((1, 1)),
-            8 | 10 | 12 => Some((1, 2)),
+            8 | 10 | 12 | 14 => Some((1, 2)),
             11 => Some((2, 1)),
             _ => None,
         }
@@ -598,7 +616,8 @@ pub fn grids(tier: Tier) -> Vec<(Grid, usize, bool)> {
             (g(1, 4, &seven), 6, false),
             (g(2, 2, &vec![0, 1, 3, 6, 7, 8, 11]), 6, false),
             (g(1, 6, &long), 6, false),
-            (g(1, 3, &vec![0, 1, 7, 10, 12, 13]), 6, true),
+            (g(1, 3, &vec![0, 1, 7, 10, 12, 13, 14]), 6, true),
+            (g(1, 3, &vec![0, 1, 2, 5, 15, 16]), 6, false),
         ],
         Tier::Thorough => vec![
             (g(1, 1, &all), 8, true),
@@ -609,8 +628,10 @@ pub fn grids(tier: Tier) -> Vec<(Grid, usize, bool)> {
             (g(2, 3, &vec![0, 1, 6, 8, 11]), 8, false),
             (g(1, 6, &long), 8, true),
             (g(1, 7, &long), 8, false),
-            (g(1, 4, &vec![0, 1, 7, 10, 12, 13]), 8, true),
-            (g(2, 2, &vec![0, 1, 10, 12, 13]), 8, false),
+            (g(1, 4, &vec![0, 1, 7, 10, 12, 13, 14]), 8, true),
+            (g(2, 2, &vec![0, 1, 10, 12, 13, 14]), 8, false),
+            (g(1, 4, &vec![0, 1, 2, 5, 15, 16]), 8, true),
+            (g(2, 2, &vec![0, 1, 5, 15, 16]), 8, false),
         ],
     }
 }
@@ -657,7 +678,7 @@ pub fn run(ctx: &Ctx) -> Result<Report, String> {
         .set("samples", samples.into_vec());
     r.assume("VT semantics of model/screen.rs (xterm/ECMA-48/kitty): ECH erases with the current background only; overwriting half of a wide character blanks the other half keeping its rendition");
     r.assume("display width as defined by unicode-width (the library's own definition)");
-    r.assume("grids up to the listed sizes and the 14 cell kinds; every transition is a real TerminalRenderer::frame call");
+    r.assume("grids up to the listed sizes and the 17 cell kinds; every transition is a real TerminalRenderer::frame call");
     r.violations = viol.into_vec();
     Ok(r)
 }
